@@ -21,8 +21,8 @@ Definition mstate_eqb (a b : mstate) : bool :=
   match a, b with MZero, MZero | MSleep, MSleep | MRunning, MRunning | MTerm, MTerm => true | _, _ => false end.
 
 (* behaviour of the handler callback for a message: returns nil after n steps / returns an error *)
-Inductive mbeh := MOk (n : nat) | MErr (r : Z) | MExit (r : Z).   (* MExit: exit message pushed by the parent's termination *)
-Record mmsg := mk_mmsg { mm_id : nat; mm_sys : bool; mm_beh : mbeh }.
+Inductive metabeh := MOk (n : nat) | MErr (r : Z) | MExit (r : Z).   (* MExit: exit message pushed by the parent's termination *)
+Record mmsg := mk_mmsg { mm_id : nat; mm_sys : bool; mm_beh : metabeh }.
 
 Inductive mpc :=
 (* goroutine A: start() *)
@@ -39,6 +39,7 @@ Inductive mpc :=
 | C_push (m : mmsg)           (* "meta.push" / "meta.xpush": push into main / system *)
 | C_cas                       (* "meta.cas": CAS Sleep->Running *)
 | C_spawn                     (* "meta.spawn": go func *)
+| C_exit                      (* "meta.hc.exit": handle() returns *)
 (* the handler goroutine *)
 | G_start                     (* "meta.h.start" *)
 | G_state                     (* "meta.h.state": state load *)
@@ -78,6 +79,10 @@ Definition m_finalise (s : mshared) : mshared :=
 Definition m_enter_term (s : mshared) (r : Z) : mshared :=
   mk_msh (mst s) (msys s) (mmain s) (exit_reason s) (mfin s) (S (mterms s)) (Some r) (mhandled s).
 
+(* a popped exit message is consumed without a behaviour callback *)
+Definition m_note_handled (s : mshared) (m : mmsg) : mshared :=
+  match mm_beh m with MExit _ => s | _ => m_add_handled s (mm_id m) end.
+
 Definition deferred_reason (s : mshared) : Z := match exit_reason s with Some r => r | None => 0%Z end.
 
 Definition m_cb_pc (m : mmsg) : mpc :=
@@ -105,19 +110,20 @@ Definition mstep_pc (fixed : bool) (s : mshared) (p : mpc) : option (mshared * m
 
   | C_push m =>
       Some (if mm_sys m then set_queues s (msys s ++ [m]) (mmain s) else set_queues s (msys s) (mmain s ++ [m]), C_cas, None)
-  | C_cas => if mstate_eqb (mst s) MSleep then Some (set_mst s MRunning, C_spawn, None) else Some (s, MDone, None)
-  | C_spawn => Some (s, MDone, Some G_start)
+  | C_cas => if mstate_eqb (mst s) MSleep then Some (set_mst s MRunning, C_spawn, None) else Some (s, C_exit, None)
+  | C_spawn => Some (s, C_exit, Some G_start)
+  | C_exit => Some (s, MDone, None)
 
   | G_start => Some (s, G_state, None)
   | G_state => if mstate_eqb (mst s) MRunning then Some (s, G_pop 0, None) else Some (s, G_sleep, None)
   | G_pop O =>
       match msys s with
-      | m :: tl => Some (m_add_handled (set_queues s tl (mmain s)) (mm_id m), m_cb_pc m, None)
+      | m :: tl => Some (m_note_handled (set_queues s tl (mmain s)) m, m_cb_pc m, None)
       | [] => Some (s, G_pop 1, None)
       end
   | G_pop (S _) =>
       match mmain s with
-      | m :: tl => Some (m_add_handled (set_queues s (msys s) tl) (mm_id m), m_cb_pc m, None)
+      | m :: tl => Some (m_note_handled (set_queues s (msys s) tl) m, m_cb_pc m, None)
       | [] => Some (s, G_sleep, None)
       end
   | G_cb m (S n) => Some (s, G_cb m n, None)
